@@ -1368,6 +1368,12 @@ class Data(BaseCartesianData):
                                            for key, value in self._components.items())
             changed = True
 
+            # Derived components that are computed from the old ID now need
+            # to be computed from the new one
+            for component in self._components.values():
+                if isinstance(component, DerivedComponent):
+                    component.link.replace_ids(old, new)
+
         try:
             index = self._pixel_component_ids.index(old)
             self._pixel_component_ids[index] = new
